@@ -1280,11 +1280,23 @@ def bl4(ctx, R):
     # 7: TimestampDataReceiver: native layout + copies by field name
     tdr = prog.cls("channel_data.TimestampDataReceiver")
     n_assign = 0
-    for fi, n in [(m, n) for _nm, m in sorted(tdr.methods.items()) for n in walk_body(m.node)]:
+    # the receiver's own methods, and the helpers of its module that deal with raw timestamps (they mention the record fields or the
+    # datetime64 conversion) and store into the array they are given
+    ts_funcs = [m for _nm, m in sorted(tdr.methods.items())]
+    for f_ in sorted(prog.functions.values(), key=lambda f: f.qual):
+        if f_.module is tdr.module and f_ not in ts_funcs and f_.cls is not tdr and any(
+                (isinstance(x, ast.Constant) and x.value in ("seconds", "second_fractions")) or (isinstance(x, ast.Attribute) and x.attr == "as_datetime64")
+                for x in ast.walk(f_.node)):
+            ts_funcs.append(f_)
+
+    def is_store_base(f_, b):
+        d_ = dotted(b)
+        return d_ == "self.data" or (f_.cls is not tdr and isinstance(b, ast.Name) and b.id in f_.params)
+    for fi, n in [(m, n) for m in ts_funcs for n in walk_body(m.node)]:
         if isinstance(n, ast.Assign) and len(n.targets) == 1 and isinstance(n.targets[0], ast.Subscript):
             t = n.targets[0]
             base = t.value
-            if dotted(base) == "self.data":
+            if is_store_base(fi, base):
                 n_assign += 1
                 # positional (whole-record) store: only allowed for converted datetime64 data
                 conv = isinstance(n.value, ast.Call) and isinstance(n.value.func, ast.Attribute) and n.value.func.attr == "as_datetime64"
@@ -1292,7 +1304,7 @@ def bl4(ctx, R):
                         "stores converted datetime64 values",
                         "raw timestamp records are copied positionally (`%s`): NumPy assigns structured arrays by field position, and "
                         "big-endian chunks have the fields in the opposite order" % unparse(n))
-            elif isinstance(base, ast.Subscript) and dotted(base.value) == "self.data" and isinstance(base.slice, ast.Constant):
+            elif isinstance(base, ast.Subscript) and is_store_base(fi, base.value) and isinstance(base.slice, ast.Constant):
                 n_assign += 1
                 fld = base.slice.value
                 v = n.value
